@@ -20,6 +20,10 @@ def run_property(pid, tier, root=None, replay=None, list_findings=False, ctx=Non
     ctx = ctx or Ctx(root, tier)
     insts, notes = [], []
     for rid in spec["rules"]:
+        # "RULE" runs the whole rule; "RULE~regex" keeps only the instances whose site matches (the clauses of that rule this property depends on)
+        only = None
+        if "~" in rid:
+            rid, only = rid.split("~", 1)
         fn = props.RULESETS[rid]
         c = Collector(rid)
         key = ("rule", rid)
@@ -35,7 +39,11 @@ def run_property(pid, tier, root=None, replay=None, list_findings=False, ctx=Non
                 sys.stderr.write("rule %s stopped on an unexpected shape:\n%s\n" % (rid, _tb.format_exc()))
                 c.undecided("rule:%s" % rid, "rule-stopped(%s)" % type(e).__name__, "the rule could not analyse this code shape (%s); its remaining instances are not decided" % (str(e)[:80],))
             ctx.cache[key] = c
-        insts += c.insts
+        if only is not None:
+            import re as _re
+            insts += [i for i in c.insts if _re.search(only, i.site) or i.site.startswith("rule:")]
+        else:
+            insts += c.insts
         notes += ["%s: %s" % (rid, n) for n in c.notes]
     if replay:
         want = json.load(open(replay))
